@@ -1840,6 +1840,8 @@ func TestC10(t *testing.T) {
 			fmt.Fprintln(w, housekeeping(f[1:]))
 		case len(f) >= 2 && f[0] == "table":
 			fmt.Fprintln(w, peerTable(f[1:]))
+		case len(f) >= 3 && f[0] == "discover" && f[1] == "tok":
+			fmt.Fprintln(w, discoverTokens(f[2:])) // discover tok <D>:<S> ... (discover_tokens_test.go)
 		case len(f) == 3 && f[0] == "discover" && f[2] == "failsend":
 			n, _ := strconv.Atoi(f[1])
 			fmt.Fprintln(w, discover(n, false, true))
